@@ -6,6 +6,7 @@ from conf.common import *  # noqa
 FULL_CURVES = ["bn254", "bls12-381"]
 LIGHT_CURVES = ["bw6-761", "bls24-315"]
 EXTRA_CURVES = ["bls12-377", "bls24-317", "bw6-633"]   # same (lighter) registry; quick: sequential + concurrent, thorough: everything
+PLAIN_CURVES = ["grumpkin", "secp256k1", "stark-curve"]   # no pairing: plain.tmpl (group law, MSM, codecs, hash-to-curve, ECDSA, fields)
 SMALL = ["koalabear", "babybear", "goldilocks"]
 GROUPS = FULL_CURVES + LIGHT_CURVES + SMALL + ["misc"]
 
@@ -26,8 +27,12 @@ FIRST_USE_EXTRA = ["%s/%s" % (c, g) for c in EXTRA_CURVES
                              "polynomial.lagrangeBasis", "pool.BigInt", "fptower.bigIntPool")]
 
 
+FIRST_USE_PLAIN = (["%s/pool.BigInt" % c for c in PLAIN_CURVES]
+                   + ["grumpkin/" + g for g in ("mimc.once", "poseidon2.GetDefaultParameters", "polynomial.lagrangeBasis")])
+
+
 def _first_use_shards(tier):
-    names = FIRST_USE + (FIRST_USE_EXTRA if tier == "thorough" else [])
+    names = FIRST_USE + FIRST_USE_PLAIN + (FIRST_USE_EXTRA if tier == "thorough" else [])
     return [dict(name=re.sub(r"[^A-Za-z0-9_.-]", "_", n), inst="^" + re.escape(n) + "$") for n in names]
 
 
@@ -79,6 +84,10 @@ PROP = dict(
         "a call that never returns yields no result: a watchdog (240 s, 10^4..10^5 times the duration of any entry) reports it with the dump of "
         "the goroutines blocked inside the library instead of letting the job end as an inconclusive timeout; it is not used as a timing oracle",
         "bls12-377, bls24-317, bw6-633 run the lighter registry sequentially and concurrently in quick; -race and first-use jobs for them in thorough",
+        "grumpkin, secp256k1 and stark-curve have their own registries (plain.tmpl: 71 / 53 / 46 entry points): every exported group-law, "
+        "scalar-multiplication, batch, MultiExp/Fold, codec (RawBytes/SetBytes, Marshal/Unmarshal/Bytes, Encoder/Decoder where they exist), "
+        "hash-to-curve, Pedersen-hash (stark-curve), ECDSA (Verify, Sign, HashToInt, key/signature codecs, SignForRecover/RecoverFrom) entry "
+        "point and the fp/fr conversions, under all the oracles and all the suites (sequential, concurrent, -race, -race purego, first use)",
         "goroutine scheduling is the only input not controlled by the rapid seed; a race needing an interleaving the runtime does not "
         "produce under the varied g / GOMAXPROCS / yields / -race instrumentation can be missed; timing is never used as a signal",
         "shared inputs are a deterministic function of VERIF_SEED (SHA-256 counter stream); ECDSA signatures are produced once with the "
@@ -109,13 +118,20 @@ PROP = dict(
              env=RACE_ENV, checks=(100, 1500), timeout=(1800, 5400), weight=8),
         dict(name="race-purego-curve", pkg="c18", run="^TestC18_Concurrent$", race=True, tags="purego", shards=_race_purego_curve_shards,
              env=RACE_ENV, checks=(20, 300), timeout=(1800, 7200), weight=11),
-        dict(name="race-seq", pkg="c18", run="^TestC18_Sequential$", race=True, shards=GROUPS, env=RACE_ENV,
+        dict(name="race-seq", pkg="c18", run="^TestC18_Sequential$", race=True, shards=GROUPS + EXTRA_CURVES + PLAIN_CURVES, env=RACE_ENV,
              checks=(15, 300), timeout=(1800, 5400), weight=7, tiers=("thorough",)),
         # the three remaining pairing curves: a change confined to one curve's generated copy must not be invisible
         dict(name="seq-extra", pkg="c18", run="^TestC18_Sequential$", shards=EXTRA_CURVES, checks=(300, 8000), timeout=(1800, 5400), weight=5),
         dict(name="conc-extra", pkg="c18", run="^TestC18_Concurrent$", shards=EXTRA_CURVES, checks=(100, 3000), timeout=(1800, 5400), weight=5),
         dict(name="race-extra", pkg="c18", run="^TestC18_Concurrent$", race=True, shards=_race_extra_shards, env=RACE_ENV,
              checks=(30, 600), timeout=(1800, 5400), weight=9, tiers=("thorough",)),
+        # the curves without pairing (plain.tmpl): cheap registries, every suite in quick with modest counts
+        dict(name="seq-plain", pkg="c18", run="^TestC18_Sequential$", shards=PLAIN_CURVES, checks=(600, 10000), timeout=(1800, 5400), weight=3),
+        dict(name="conc-plain", pkg="c18", run="^TestC18_Concurrent$", shards=PLAIN_CURVES, checks=(250, 4000), timeout=(1800, 5400), weight=3),
+        dict(name="race-plain", pkg="c18", run="^TestC18_Concurrent$", race=True, shards=PLAIN_CURVES, env=RACE_ENV,
+             checks=(60, 2500), timeout=(1800, 5400), weight=6),
+        dict(name="race-purego-plain", pkg="c18", run="^TestC18_Concurrent$", race=True, tags="purego", shards=PLAIN_CURVES,
+             env=RACE_ENV, checks=(25, 800), timeout=(1800, 5400), weight=8),
         dict(name="conc", pkg="c18", run="^TestC18_Concurrent$", shards=GROUPS, checks=(400, 5000), timeout=(1800, 5400), weight=5),
         dict(name="seq", pkg="c18", run="^TestC18_Sequential$", shards=FULL_CURVES + SMALL + ["misc"], checks=(1500, 20000), timeout=(1800, 5400), weight=4),
         dict(name="seq-light", pkg="c18", run="^TestC18_Sequential$", shards=LIGHT_CURVES, checks=(800, 8000), timeout=(1800, 5400), weight=5),
@@ -126,14 +142,16 @@ PROP = dict(
 )
 
 PROP.update(
-    technique=("property-based testing over call histories and schedules: a registry of ~1800 exported entry points closed over shared "
-               "argument objects (7 pairing curves, 3 small fields, hash registry, bandersnatch, secp256k1), rapid-drawn histories and "
+    technique=("property-based testing over call histories and schedules: a registry of ~1950 exported entry points closed over shared "
+               "argument objects (7 pairing curves, grumpkin / secp256k1 / stark-curve with their group law, MSM, codecs, hash-to-curve, ECDSA "
+               "and fields, 3 small fields, hash registry, bandersnatch), rapid-drawn histories and "
                "goroutine mixes, deep argument snapshots, the Go race detector, fresh-process first-use races"),
     level_text=("Generated histories and schedules against three oracles (argument snapshots, byte-identical results, race detector). "
                 "Exploration, not proof: the quantifiers are over histories and interleavings; histories are sampled by rapid, "
                 "interleavings are those the Go scheduler yields under varied goroutine counts, GOMAXPROCS, task-count options, "
                 "drawn yields and -race instrumentation."),
     level_note=("no deterministic scheduler: a race needing a rare interleaving can be missed; sizes are small (SRS <= 128, MSM <= 300 "
-                "points plus one 4500-point MSM with skewed scalars on bn254/bls12-381, FFT <= 512); grumpkin and stark-curve are "
-                "covered only by the hash registry and the modulus getters"),
+                "points plus one 4500-point MSM with skewed scalars on bn254/bls12-381, FFT <= 512; "
+                "64-point MSMs on the curves without pairing); the group-law methods (Add/AddAssign/AddMixed/Double...) are exercised on "
+                "shared operands for grumpkin, secp256k1 and stark-curve only (the pairing curves share the same generated code)"),
 )
